@@ -298,8 +298,6 @@ theorem expOverflowIdx_append (e k : Nat) (xs ys : Bytes) (j : Nat) (h : expOver
     · rename_i hc; simp only [hc, if_true] at h; exact h
     · rename_i hc; simp only [hc] at h; exact ih _ _ h
 
-variable (hAn : A .NumberOutOfRange)
-include hAn
 
 /-- the parts of an integer literal against the parts of a prefix of it that is complete when the input ends there:
     same sign, still no fraction and exponent, and the integer digits are a prefix -/
@@ -310,20 +308,20 @@ def IntCut (parts parts' : Num.Parts) : Prop :=
 def PreCF {α : Type} (C : α → α → Prop) (A : Code → Prop) (b : Bytes) (N : Nat) (f : Bytes → Nat → Res α) : Prop :=
   ∀ a pos, pos + a.length = N → PreC C A b N (f (a ++ b) pos) (f a pos)
 
-omit hflt hAe hAn in
+omit hflt hAe in
 theorem PreC.of_end_ok {α : Type} {C : α → α → Prop} (full : Res α) (y : α) (h : ∀ x r p, full = .ok x r p → C x y) :
     PreC C A b N full (.ok y [] N) := by
   cases full with
   | ok x r p => exact .cut (h x r p rfl)
   | _ => exact .fail (by simp)
 
-omit hflt hAe hAn in
+omit hflt hAe in
 theorem PreC.of_end_err {α : Type} {C : α → α → Prop} (full : Res α) {c : Code} (hc : A c) : PreC C A b N full (.err c N) := by
   cases full with
   | ok x r p => exact .eof hc
   | _ => exact .fail (by simp)
 
-omit hflt hAe hAn in
+omit hflt hAe in
 theorem scanExpDigits_parts (neg : Bool) (int : Bytes) (frac : Option Bytes) (en : Bool) (rest : Bytes) (pos : Nat)
     (parts : Num.Parts) (r : Bytes) (p : Nat) (h : scanExpDigits env neg int frac en rest pos = .ok parts r p) :
     parts.exp ≠ none ∧ parts.frac = frac ∧ parts.int = int ∧ parts.neg = neg := by
@@ -336,7 +334,7 @@ theorem scanExpDigits_parts (neg : Bool) (int : Bytes) (frac : Option Bytes) (en
       | (simp at h; done)
       | (cases h; simp [mkParts])
 
-omit hflt hAe hAn in
+omit hflt hAe in
 theorem scanExp_parts (neg : Bool) (int : Bytes) (frac : Option Bytes) (rest : Bytes) (pos : Nat)
     (parts : Num.Parts) (r : Bytes) (p : Nat) (h : scanExp env neg int frac rest pos = .ok parts r p) :
     parts.exp ≠ none ∧ parts.frac = frac ∧ parts.int = int ∧ parts.neg = neg := by
@@ -346,7 +344,7 @@ theorem scanExp_parts (neg : Bool) (int : Bytes) (frac : Option Bytes) (rest : B
   · repeat' split at h
     all_goals exact scanExpDigits_parts _ _ _ _ _ _ _ _ _ h
 
-omit hflt hAe hAn in
+omit hflt hAe in
 theorem scanAfterInt_parts (neg : Bool) (int : Bytes) (rest : Bytes) (pos : Nat)
     (parts : Num.Parts) (r : Bytes) (p : Nat) (h : scanAfterInt env neg int rest pos = .ok parts r p) :
     parts.int = int ∧ parts.neg = neg ∧ (∀ c tl, rest = c :: tl → (c == 0x2e) = true → parts.frac ≠ none) := by
@@ -373,7 +371,6 @@ theorem scanAfterInt_parts (neg : Bool) (int : Bytes) (rest : Bytes) (pos : Nat)
         · cases h; simp [mkParts]
       exact ⟨key.1, key.2, fun c' tl e hc => by cases e; exact absurd hc h1⟩
 
-omit hAn in
 theorem preC_scanExpDigits (neg : Bool) (int : Bytes) (frac : Option Bytes) (en : Bool) :
     PreCF IntCut A b N (scanExpDigits env neg int frac en) := by
   intro a pos hN
@@ -442,7 +439,6 @@ theorem preC_scanExpDigits (neg : Bool) (int : Bytes) (frac : Option Bytes) (en 
             | (simp at hx; done)
             | (cases hx; simp [mkParts] at he)
 
-omit hAn in
 theorem preC_scanExp (neg : Bool) (int : Bytes) (frac : Option Bytes) : PreCF IntCut A b N (scanExp env neg int frac) := by
   intro a pos hN
   cases a with
@@ -464,7 +460,6 @@ theorem preC_scanExp (neg : Bool) (int : Bytes) (frac : Option Bytes) : PreCF In
       · simp only [if_neg h1, if_neg h2]
         exact preC_scanExpDigits hflt hAe neg int frac false (c :: r) pos (by simp only [List.length_cons]; omega)
 
-omit hAn in
 theorem preC_scanAfterInt (neg : Bool) (int : Bytes) : PreCF IntCut A b N (scanAfterInt env neg int) := by
   intro a pos hN
   cases a with
@@ -528,7 +523,6 @@ theorem preC_scanAfterInt (neg : Bool) (int : Bytes) : PreCF IntCut A b N (scanA
         show PreC IntCut A b N (.ok _ ((c :: r) ++ b) _) (.ok _ (c :: r) _)
         exact .same (by simp only [List.length_cons]; omega)
 
-omit hAn in
 theorem preC_scanInteger (neg : Bool) : PreCF IntCut A b N (scanInteger env neg) := by
   intro a pos hN
   have cutI : ∀ (full : Res Num.Parts) (int tl : Bytes), (∀ x r p, full = .ok x r p → x.int = int ++ tl ∧ x.neg = neg) →
@@ -581,7 +575,6 @@ theorem preC_scanInteger (neg : Bool) : PreCF IntCut A b N (scanInteger env neg)
           exact ⟨by rw [this.1]; simp, this.2.1⟩
       · exact .fail (by simp)
 
-omit hAn in
 theorem preC_scanNumber : PreCF IntCut A b N (scanNumber env) := by
   intro a pos hN
   cases a with
@@ -598,16 +591,15 @@ theorem preC_scanNumber : PreCF IntCut A b N (scanNumber env) := by
     · exact preC_scanInteger hflt hAe true r (pos + 1) (by omega)
     · exact preC_scanInteger hflt hAe false (x :: r) pos (by simp only [List.length_cons]; omega)
 
-omit hAn in
 theorem pre_scanNumber : PreF A b N (scanNumber env) := fun a pos hN => (preC_scanNumber hflt hAe a pos hN).weaken
 
-omit hflt hAe hAn in
+omit hflt hAe in
 theorem parserNumber_not_lit (p : Num.Parts) (n : SJ.Num) (h : parserNumber env p = some n) : ∀ s, n ≠ .lit s := by
   intro s hs
   unfold parserNumber at h
   split at h <;> simp at h <;> subst h <;> cases hs
 
-omit hflt hAe hAn in
+omit hflt hAe in
 /-- serde's float visitors accept every `ParserNumber` -/
 theorem visitNumber_float_ok (ty : NumTy) (hty : ∀ w, ty ≠ .int w) (p : Num.Parts) (n : SJ.Num)
     (h : parserNumber env p = some n) : ∃ v, visitNumber ty n = .ok v := by
@@ -617,7 +609,7 @@ theorem visitNumber_float_ok (ty : NumTy) (hty : ∀ w, ty ≠ .int w) (p : Num.
   | f64 => cases n <;> simp [visitNumber, FromValue.numberF64] <;> exact absurd rfl (hl _)
   | f32 => cases n <;> simp [visitNumber, FromValue.numberF32] <;> exact absurd rfl (hl _)
 
-omit hflt hAe hAn in
+omit hflt hAe in
 theorem pre_ofVisit_fix (v : FromValue.R) (pk : Bool) (r : Bytes) (p : Nat) (hp : p + r.length = N) :
     Pre A b N (fixPos env pk (ofVisit v (r ++ b) p)) (fixPos env pk (ofVisit v r p)) := by
   cases v with
@@ -626,7 +618,7 @@ theorem pre_ofVisit_fix (v : FromValue.R) (pk : Bool) (r : Bytes) (p : Nat) (hp 
 
 /-- `deserialize_f64` / `deserialize_f32`: the visitor accepts every number, so a literal cut short still gives a value
     (or is out of range: `NumberOutOfRange` at the end of the prefix) -/
-theorem pre_deNumber_float (ty : NumTy) (hty : ∀ w, ty ≠ .int w) : PreF A b N (deNumber env ty) := by
+theorem pre_deNumber_float (hAn : A .NumberOutOfRange) (ty : NumTy) (hty : ∀ w, ty ≠ .int w) : PreF A b N (deNumber env ty) := by
   unfold deNumber
   refine pre_withPeek hflt hAe rfl fun x r p hp => ?_
   split
@@ -652,7 +644,6 @@ theorem pre_deNumber_float (ty : NumTy) (hty : ∀ w, ty ≠ .int w) : PreF A b 
 
 /-! ## 128-bit integers -/
 
-omit hAn in
 theorem pre_scanDigits (acc : Bytes) : PreF A b N (scanDigits env acc) := by
   intro a
   induction a generalizing acc with
@@ -674,7 +665,6 @@ theorem pre_scanDigits (acc : Bytes) : PreF A b N (scanDigits env acc) := by
       show Pre A b N (.ok _ ((c :: r) ++ b) _) (.ok _ (c :: r) _)
       exact .same (by simp only [List.length_cons]; omega)
 
-omit hAn in
 theorem pre_scanInteger128 : PreF A b N (scanInteger128 env) := by
   intro a pos hN
   cases a with
@@ -706,34 +696,12 @@ theorem pre_scanInteger128 : PreF A b N (scanInteger128 env) := by
       · exact pre_scanDigits hflt hAe [c] r (pos + 1) (by omega)
       · exact .fail (by simp)
 
-omit hflt hAe hAn in
+omit hflt hAe in
 theorem errorIdx_nil (pos : Nat) (pk : Bool) : errorIdx env [] pos pk = pos := by simp [errorIdx]
-
-theorem pre_deInt128 (w : IntTy) : PreF A b N (deInt128 env w) := by
-  unfold deInt128
-  refine pre_withPeek hflt hAe rfl fun x r p hp => ?_
-  simp only
-  have fin : ∀ (neg : Bool), PreF A b N (fun rr pp => (scanInteger128 env rr pp).bind fun ds rest' pos' =>
-      match FromValue.rustParseInt w (if neg then 0x2d :: ds else ds) with
-      | some x => (.ok (.int x) rest' pos' : TOut)
-      | none => .err .NumberOutOfRange (errorIdx env rest' pos' true)) := by
-    intro neg a pos hN
-    refine (pre_scanInteger128 hflt hAe a pos hN).bind (fun ds r' p' hp' => ?_) (fun ds => ?_)
-    · split
-      · exact .same hp'
-      · exact .fail (by simp)
-    · split
-      · exact atEnd_ok _
-      · rw [errorIdx_nil]; exact atEnd_err hAn
-  split
-  · split
-    · exact fin true r (p + 1) (by omega)
-    · exact .fail (by simp)
-  · exact fin false (x :: r) p (by simp only [List.length_cons]; omega)
 
 /-! ## the machine as a sub-parser -/
 
-omit hflt hAe hAn in
+omit hflt hAe in
 theorem finishMode_err (menv : Machine.Env) (s : St) (c : Code) (h : finishMode menv s = .error c) : classify c = .eof := by
   unfold finishMode at h
   repeat' split at h
@@ -741,7 +709,7 @@ theorem finishMode_err (menv : Machine.Env) (s : St) (c : Code) (h : finishMode 
     | (simp at h; done)
     | (simp at h; subst h; rfl)
 
-omit hflt hAe hAn in
+omit hflt hAe in
 theorem finishT_err (menv : Machine.Env) (t : Nat) (s : St) (c : Code) (h : finishT menv t s = .error c) :
     classify c = .eof ∨ c = .NumberOutOfRange := by
   unfold finishT at h
@@ -761,14 +729,15 @@ theorem finishT_err (menv : Machine.Env) (t : Nat) (s : St) (c : Code) (h : fini
         exact .inr (SJ.Proofs.Machine.endNumber_err menv s n c' a hc).1
   · exact .inl (finishMode_err _ _ _ h)
 
-omit hflt hAe hAn in
+omit hflt hAe in
 /-- the machine on `a ++ b` against the machine on `a`: the value is decided inside `a`, or the run on `a` ends at
     the end of `a` — with a value (a number ended by the end of input) or an `Eof…` / `NumberOutOfRange` error -/
-theorem runPfx_pre (menv : Machine.Env) (t : Nat) (a b : Bytes) : ∀ (s : St) (i : Nat) (v : JV) (e : Nat),
+theorem runPfx_pre (menv : Machine.Env) (t : Nat) (Q : Code → Prop) (hfin : ∀ s c, finishT menv t s = .error c → Q c)
+    (a b : Bytes) : ∀ (s : St) (i : Nat) (v : JV) (e : Nat),
     runPfx menv false t s i (a ++ b) = .ok v e →
     (e ≤ i + a.length ∧ runPfx menv false t s i a = .ok v e) ∨
     (∃ v', runPfx menv false t s i a = .ok v' (i + a.length)) ∨
-    (∃ c, runPfx menv false t s i a = .err c (i + a.length) ∧ (classify c = .eof ∨ c = .NumberOutOfRange)) := by
+    (∃ c, runPfx menv false t s i a = .err c (i + a.length) ∧ Q c) := by
   induction a with
   | nil =>
     intro s i v e _
@@ -776,7 +745,7 @@ theorem runPfx_pre (menv : Machine.Env) (t : Nat) (a b : Bytes) : ∀ (s : St) (
     simp only [runPfx, Bool.false_eq_true, ↓reduceIte, List.length_nil, Nat.add_zero]
     cases hf : finishT menv t s with
     | ok v' => exact .inl ⟨v', rfl⟩
-    | error c => exact .inr ⟨c, rfl, finishT_err _ _ _ _ hf⟩
+    | error c => exact .inr ⟨c, rfl, hfin _ _ hf⟩
   | cons x a ih =>
     intro s i v e h
     simp only [List.cons_append] at h
@@ -784,7 +753,7 @@ theorem runPfx_pre (menv : Machine.Env) (t : Nat) (a b : Bytes) : ∀ (s : St) (
     have lift : ∀ s', runPfx menv false t s' (i + 1) (a ++ b) = .ok v e →
         (e ≤ i + (x :: a).length ∧ runPfx menv false t s' (i + 1) a = .ok v e) ∨
         (∃ v', runPfx menv false t s' (i + 1) a = .ok v' (i + (x :: a).length)) ∨
-        (∃ c, runPfx menv false t s' (i + 1) a = .err c (i + (x :: a).length) ∧ (classify c = .eof ∨ c = .NumberOutOfRange)) := by
+        (∃ c, runPfx menv false t s' (i + 1) a = .err c (i + (x :: a).length) ∧ Q c) := by
       intro s' h'
       have := ih s' (i + 1) v e h'
       simp only [List.length_cons]
@@ -835,7 +804,7 @@ theorem runPfx_pre (menv : Machine.Env) (t : Nat) (a b : Bytes) : ∀ (s : St) (
             exact lift s'' h
         | again s'' => rw [hs2] at h; simp at h
 
-omit hflt hAe hAn in
+omit hflt hAe in
 theorem drop_append_le {α : Type} (a b : List α) (k : Nat) (h : k ≤ a.length) : (a ++ b).drop k = a.drop k ++ b := by
   induction a generalizing k with
   | nil => simp at h; subst h; simp
@@ -844,8 +813,35 @@ theorem drop_append_le {α : Type} (a b : List α) (k : Nat) (h : k ≤ a.length
     | zero => simp
     | succ k => simp only [List.cons_append, List.drop_succ_cons]; exact ih k (by simpa using h)
 
-/-- one value on the machine, from any state -/
-theorem pre_machine (menv : Machine.Env) (t : Nat) (s : St) : PreF A b N (machine menv false t s) := by
+omit hflt in
+/-- the end-of-input table of the `Value` parser: `Eof…` codes and `NumberOutOfRange` -/
+theorem finA_value (hAn : A .NumberOutOfRange) (menv : Machine.Env) (t : Nat) : ∀ s c, finishT menv t s = .error c → A c :=
+  fun s c h => (finishT_err menv t s c h).elim (hAe c) (fun e => e ▸ hAn)
+
+omit hflt in
+/-- the end-of-input table of `ignore_value`: `Eof…` codes only (numbers are not converted) -/
+theorem finA_ignored (menv : Machine.Env) (htgt : menv.tgt = .ignored) (t : Nat) : ∀ s c, finishT menv t s = .error c → A c := by
+  intro s c h
+  apply hAe
+  unfold finishT at h
+  split at h
+  · split at h
+    · simp at h; subst h; rfl
+    · simp at h; subst h; rfl
+    · simp at h; subst h; rfl
+    · simp at h; subst h; rfl
+    · split at h
+      · split at h
+        · simp at h
+        · exact finishMode_err _ _ _ h
+      · rename_i c' a' hc
+        unfold Machine.endNumber at hc
+        simp [htgt] at hc
+  · exact finishMode_err _ _ _ h
+
+/-- one value on the machine, from any state; `hfin`: what the machine's end-of-input table may answer -/
+theorem pre_machine (menv : Machine.Env) (t : Nat) (s : St) (hfin : ∀ s' c, finishT menv t s' = .error c → A c) :
+    PreF A b N (machine menv false t s) := by
   intro a pos hN
   unfold machine
   cases hf : runPfx menv false t s pos (a ++ b) with
@@ -853,7 +849,7 @@ theorem pre_machine (menv : Machine.Env) (t : Nat) (s : St) : PreF A b N (machin
   | io => exact .fail (by simp)
   | ok v e =>
     have hge := runPfx_ge _ _ _ _ _ _ _ _ hf
-    rcases runPfx_pre menv t a b s pos v e hf with ⟨h1, h2⟩ | ⟨v', h2⟩ | ⟨c, h2, hc⟩
+    rcases runPfx_pre menv t A hfin a b s pos v e hf with ⟨h1, h2⟩ | ⟨v', h2⟩ | ⟨c, h2, hc⟩
     · rw [h2]
       simp only
       rw [drop_append_le a b (e - pos) (by omega)]
@@ -866,21 +862,22 @@ theorem pre_machine (menv : Machine.Env) (t : Nat) (s : St) : PreF A b N (machin
     · rw [h2]
       simp only
       rw [hN]
-      exact .eof (hc.elim (hAe c) (fun h => h ▸ hAn))
+      exact .eof hc
 
-theorem end_machine (menv : Machine.Env) (t : Nat) (s : St) : AtEnd A N (machine menv false t s [] N) := by
+theorem end_machine (menv : Machine.Env) (t : Nat) (s : St) (hfin : ∀ s' c, finishT menv t s' = .error c → A c) :
+    AtEnd A N (machine menv false t s [] N) := by
   unfold machine
   simp only [runPfx, Bool.false_eq_true, ↓reduceIte]
   cases hf : finishT menv t s with
   | ok v => simp only [Nat.sub_self, List.drop_nil]; exact atEnd_ok _
-  | error c => exact atEnd_err ((finishT_err _ _ _ _ hf).elim (hAe c) (fun h => h ▸ hAn))
+  | error c => exact atEnd_err (hfin _ _ hf)
 
 /-! ### strings: a string literal never ends because the input ended -/
 
 /-- inside a string literal at top level of the sub-parser -/
 def IsStr (s : St) : Prop := ∃ st, s = { mode := .str st, stack := [] }
 
-omit hflt hAe hAn in
+omit hflt hAe in
 theorem isStr_step (menv : Machine.Env) (s : St) (hs : IsStr s) (x : UInt8) :
     (∃ c a, step1 menv s x = .err c a) ∨
     (∃ s', step1 menv s x = .next s' ∧ (IsStr s' ∨ ∃ v, s' = { mode := .done v, stack := [] })) := by
@@ -897,7 +894,7 @@ theorem isStr_step (menv : Machine.Env) (s : St) (hs : IsStr s) (x : UInt8) :
          | exact .inr ⟨_, rfl, .inr ⟨_, rfl⟩⟩
          | exact .inr ⟨_, rfl, .inl ⟨_, rfl⟩⟩)
 
-omit hflt hAe hAn in
+omit hflt hAe in
 theorem runPfx_str_pre (menv : Machine.Env) (t : Nat) (a b : Bytes) : ∀ (s : St) (i : Nat) (v : JV) (e : Nat), IsStr s →
     runPfx menv false t s i (a ++ b) = .ok v e →
     (e ≤ i + a.length ∧ runPfx menv false t s i a = .ok v e) ∨
@@ -929,7 +926,6 @@ theorem runPfx_str_pre (menv : Machine.Env) (t : Nat) (a b : Bytes) : ∀ (s : S
         obtain ⟨rfl, rfl⟩ := h
         exact .inl ⟨by simp only [List.length_cons]; omega, rfl⟩
 
-omit hAn in
 theorem preS_parseStr : PreSF A b N (parseStr env) := by
   intro a pos hN
   unfold parseStr machine
@@ -952,21 +948,20 @@ theorem preS_parseStr : PreSF A b N (parseStr env) := by
 
 /-! ## strings -/
 
-omit hflt hAe hAn in
+omit hflt hAe in
 theorem preS_ofVisit_fix (v : FromValue.R) (pk : Bool) (r : Bytes) (p : Nat) (hp : p + r.length = N) :
     PreS A b N (fixPos env pk (ofVisit v (r ++ b) p)) (fixPos env pk (ofVisit v r p)) := by
   cases v with
   | ok t => exact .same hp
   | error e => exact .fail (by simp [ofVisit, fixPos])
 
-omit hflt hAe hAn in
+omit hflt hAe in
 theorem preS_ofVisit (v : FromValue.R) (r : Bytes) (p : Nat) (hp : p + r.length = N) :
     PreS A b N (ofVisit v (r ++ b) p) (ofVisit v r p) := by
   cases v with
   | ok t => exact .same hp
   | error e => exact .fail (by simp [ofVisit])
 
-omit hAn in
 theorem preS_deStr (visit : Bytes → FromValue.R) : PreSF A b N (deStr env visit) := by
   unfold deStr
   refine preS_withPeek hflt hAe rfl fun x r p hp => ?_
@@ -974,10 +969,8 @@ theorem preS_deStr (visit : Bytes → FromValue.R) : PreSF A b N (deStr env visi
   · exact (preS_parseStr hflt hAe r (p + 1) (by omega)).bindS fun s r' p' hp' => preS_ofVisit_fix _ _ _ _ hp'
   · exact preS_peekInvalidType
 
-omit hAn in
 theorem end_deStr (visit : Bytes → FromValue.R) : EndF A N (deStr env visit) := end_withPeek hflt hAe rfl
 
-omit hAn in
 theorem preS_runRaw : ∀ (st : RawSt), PreSF A b N (runRaw env st) := by
   intro st a
   induction a generalizing st with
@@ -1007,7 +1000,6 @@ theorem preS_runRaw : ∀ (st : RawSt), PreSF A b N (runRaw env st) := by
 
 /-! ## sequences -/
 
-omit hAn in
 theorem preS_hasNextElement (first : Bool) : PreSF A b N (hasNextElement env first) := by
   unfold hasNextElement
   refine preS_withPeek hflt hAe rfl fun x r p hp => ?_
@@ -1025,11 +1017,9 @@ theorem preS_hasNextElement (first : Bool) : PreSF A b N (hasNextElement env fir
           exact .same (by simp only [List.length_cons]; omega)
       · exact .fail (by simp)
 
-omit hAn in
 theorem hasNextElement_nil (first : Bool) : hasNextElement env first [] N = .err .EofWhileParsingList N := by
   simp [hasNextElement, withPeek, skipWs, atEof_eq hflt]
 
-omit hAn in
 theorem pre_nextElement (de : Bytes → Nat → TOut) (hp : PreF A b N de) (first : Bool) : PreF A b N (nextElement env de first) := by
   intro a pos hN
   unfold nextElement
@@ -1038,11 +1028,9 @@ theorem pre_nextElement (de : Bytes → Nat → TOut) (hp : PreF A b N de) (firs
   · exact (hp r p hp').map _
   · exact .same hp'
 
-omit hAn in
 theorem nextElement_nil (de : Bytes → Nat → TOut) (first : Bool) : nextElement env de first [] N = .err .EofWhileParsingList N := by
   simp [nextElement, hasNextElement_nil hflt hAe, Res.bind]
 
-omit hAn in
 theorem pre_seqLoop (de : Bytes → Nat → TOut) (hg : Good de) (hp : PreF A b N de) :
     ∀ (n' n : Nat) (first : Bool) (acc : List TVal) (a : Bytes) (pos : Nat), a.length < n' → (a ++ b).length < n →
       pos + a.length = N → Pre A b N (seqLoop env de n first acc (a ++ b) pos) (seqLoop env de n' first acc a pos) := by
@@ -1078,7 +1066,7 @@ theorem pre_seqLoop (de : Bytes → Nat → TOut) (hg : Good de) (hp : PreF A b 
             rw [nextElement_nil hflt hAe]
             exact atEnd_err (hAe _ rfl)
 
-omit hflt hAe hAn in
+omit hflt hAe in
 /-- `has_next_element` answers `false` only with the `]` peeked -/
 theorem hasNextElement_false (first : Bool) (rest : Bytes) (pos : Nat) (r : Bytes) (p : Nat)
     (h : hasNextElement env first rest pos = .ok false r p) : r ≠ [] := by
@@ -1090,7 +1078,7 @@ theorem hasNextElement_false (first : Bool) (rest : Bytes) (pos : Nat) (r : Byte
     | (cases h; simp)
     | exact absurd h (atEof_ne_ok _ _ _ _ _ _)
 
-omit hflt hAe hAn in
+omit hflt hAe in
 theorem nextElement_none (de : Bytes → Nat → TOut) (first : Bool) (rest : Bytes) (pos : Nat) (r : Bytes) (p : Nat)
     (h : nextElement env de first rest pos = .ok none r p) : r ≠ [] := by
   unfold nextElement at h
@@ -1102,7 +1090,6 @@ theorem nextElement_none (de : Bytes → Nat → TOut) (first : Bool) (rest : By
     obtain ⟨rfl, rfl⟩ := h2
     exact hasNextElement_false first rest pos _ _ h1
 
-omit hAn in
 theorem pre_tupleLoop (de : Schema → Bytes → Nat → TOut) (ss : List Schema) (hp : ∀ s ∈ ss, PreF A b N (de s)) :
     ∀ (first : Bool) (acc : List TVal), PreF A b N (tupleLoop env de ss first acc) := by
   induction ss with
@@ -1125,7 +1112,6 @@ theorem pre_tupleLoop (de : Schema → Bytes → Nat → TOut) (ss : List Schema
           rw [nextElement_nil hflt hAe]
           exact atEnd_err (hAe _ rfl)
 
-omit hAn in
 theorem preS_endSeq : PreSF A b N (fun r p => (endSeq env r p).res) := by
   intro a pos hN
   show PreS A b N (endSeq env (a ++ b) pos).res (endSeq env a pos).res
@@ -1154,11 +1140,10 @@ theorem preS_endSeq : PreSF A b N (fun r p => (endSeq env r p).res) := by
     rw [atEof_eq hflt, hN]
     exact PreS.of_err _ (hAe _ rfl)
 
-omit hAn in
 theorem endSeq_nil : (endSeq env [] N).res = .err .EofWhileParsingList N := by
   simp [endSeq, skipWs, atEof_eq hflt]
 
-omit hflt hAe hAn in
+omit hflt hAe in
 theorem closeWith_not_ok {α : Type} (endFn : Bytes → Nat → EndState) {ret : Res α} (h : ∀ x r p, ret ≠ .ok x r p) :
     ∀ x r p, closeWith env endFn ret ≠ .ok x r p := by
   intro x r p
@@ -1166,7 +1151,7 @@ theorem closeWith_not_ok {α : Type} (endFn : Bytes → Nat → EndState) {ret :
   | ok x' r' p' => exact absurd rfl (h x' r' p')
   | _ => simp [closeWith]
 
-omit hflt hAn in
+omit hflt in
 theorem pre_closeWith {α : Type} (endFn : Bytes → Nat → EndState) (hend : PreSF A b N (fun r p => (endFn r p).res))
     (hnil : ∃ c, (endFn [] N).res = .err c N ∧ classify c = .eof) {full pre : Res α} (h : Pre A b N full pre) :
     Pre A b N (closeWith env endFn full) (closeWith env endFn pre) := by
@@ -1185,7 +1170,6 @@ theorem pre_closeWith {α : Type} (endFn : Bytes → Nat → EndState) (hend : P
     exact atEnd_err hc
   | fail h => exact .fail (closeWith_not_ok endFn h)
 
-omit hAn in
 theorem pre_deSeq (t : Nat) (visit visit' : Bytes → Nat → TOut)
     (hv : ∀ a pos, pos + a.length = N → Pre A b N (visit (a ++ b) pos) (visit' a pos)) :
     ∀ a pos, pos + a.length = N → Pre A b N (deSeq env t visit (a ++ b) pos) (deSeq env t visit' a pos) := by
@@ -1197,26 +1181,16 @@ theorem pre_deSeq (t : Nat) (visit visit' : Bytes → Nat → TOut)
     · exact pre_closeWith hAe _ (preS_endSeq hflt hAe) ⟨_, endSeq_nil hflt hAe, rfl⟩ (hv r (p + 1) (by omega))
   · exact pre_peekInvalidType
 
-omit hAn in
 theorem end_deSeq (t : Nat) (visit : Bytes → Nat → TOut) : EndF A N (deSeq env t visit) := end_withPeek hflt hAe rfl
 
-/-! ## integers (8–64-bit targets are a hypothesis here: `IntPre`, discharged in `TypedPrefixInt`) -/
+/-! ## integers (a hypothesis here: `IntPre`, discharged in `TypedPrefixInt` by digit-prefix arithmetic) -/
 
-/-- the 8–64-bit integer targets satisfy the prefix relation (a digit-prefix of an in-range integer is in range) -/
-def IntPre (A : Code → Prop) (b : Bytes) (N : Nat) (env : Env) : Prop := ∀ w, PreF A b N (deNumber env (.int w))
+/-- the integer targets satisfy the prefix relation (a digit-prefix of an in-range integer is in range) -/
+def IntPre (A : Code → Prop) (b : Bytes) (N : Nat) (env : Env) : Prop := ∀ w, PreF A b N (deInt env w)
 
-theorem pre_deInt (hint : IntPre A b N env) (w : IntTy) : PreF A b N (deInt env w) := by
-  intro a pos hN
-  unfold deInt
-  split
-  · exact pre_deInt128 hflt hAe hAn w a pos hN
-  · exact hint w a pos hN
-
-omit hAn in
 theorem deNumber_nil (ty : NumTy) : deNumber env ty [] N = .err .EofWhileParsingValue N := by
   simp [deNumber, withPeek, skipWs, atEof_eq hflt]
 
-omit hAn in
 theorem deInt_nil (w : IntTy) : deInt env w [] N = .err .EofWhileParsingValue N := by
   unfold deInt
   split
@@ -1230,12 +1204,12 @@ theorem pre_deBytes (hint : IntPre A b N env) (t : Nat) : PreF A b N (deBytes en
   · exact ((preS_runRaw hflt hAe {} r (p + 1) (by omega)).map _).toPre
   · split
     · refine pre_deSeq hflt hAe t _ _ (fun a pos hN => ?_) (x :: r) p (by simp only [List.length_cons]; omega)
-      exact (pre_seqLoop hflt hAe _ (deNumber_shr env _) (hint .u8) _ _ _ _ a pos (by omega) (by omega) hN).map _
+      have h8 : PreF A b N (deNumber env (.int .u8)) := hint .u8
+      exact (pre_seqLoop hflt hAe _ (deNumber_shr env _) h8 _ _ _ _ a pos (by omega) (by omega) hN).map _
     · exact pre_peekInvalidType
 
 /-! ## maps -/
 
-omit hAn in
 theorem preS_hasNextKey (first : Bool) : PreSF A b N (hasNextKey env first) := by
   unfold hasNextKey
   refine preS_withPeek hflt hAe rfl fun x r p hp => ?_
@@ -1255,11 +1229,9 @@ theorem preS_hasNextKey (first : Bool) : PreSF A b N (hasNextKey env first) := b
         · split <;> exact .fail (by simp)
       · exact .fail (by simp)
 
-omit hAn in
 theorem hasNextKey_nil (first : Bool) : hasNextKey env first [] N = .err .EofWhileParsingObject N := by
   simp [hasNextKey, withPeek, skipWs, atEof_eq hflt]
 
-omit hAn in
 theorem preS_parseObjectColon : PreSF A b N (parseObjectColon env) := by
   unfold parseObjectColon
   refine preS_withPeek hflt hAe rfl fun x r p hp => ?_
@@ -1267,11 +1239,9 @@ theorem preS_parseObjectColon : PreSF A b N (parseObjectColon env) := by
   · exact .same (by omega)
   · exact .fail (by simp)
 
-omit hAn in
 theorem parseObjectColon_nil : parseObjectColon env [] N = .err .EofWhileParsingObject N := by
   simp [parseObjectColon, withPeek, skipWs, atEof_eq hflt]
 
-omit hAn in
 theorem preS_endMap : PreSF A b N (fun r p => (endMap env r p).res) := by
   intro a pos hN
   show PreS A b N (endMap env (a ++ b) pos).res (endMap env a pos).res
@@ -1289,17 +1259,15 @@ theorem preS_endMap : PreSF A b N (fun r p => (endMap env r p).res) := by
     rw [atEof_eq hflt, hN]
     exact PreS.of_err _ (hAe _ rfl)
 
-omit hAn in
 theorem endMap_nil : (endMap env [] N).res = .err .EofWhileParsingObject N := by
   simp [endMap, skipWs, atEof_eq hflt]
 
-omit hflt hAe hAn in
+omit hflt hAe in
 theorem drop1_append (a b : Bytes) (h : a ≠ []) : (a ++ b).drop 1 = a.drop 1 ++ b := by
   cases a with
   | nil => exact absurd rfl h
   | cons x a => simp
 
-omit hAn in
 theorem preS_keyStr (visit : Bytes → FromValue.R) (a : Bytes) (pos : Nat) (ha : a ≠ []) (hN : pos + a.length = N) :
     PreS A b N (keyStr env visit (a ++ b) pos) (keyStr env visit a pos) := by
   unfold keyStr
@@ -1325,7 +1293,7 @@ theorem pre_keyInt (hint : IntPre A b N env) (w : IntTy) (a : Bytes) (pos : Nat)
     by_cases hx : (!isNumStart x) = true
     · simp only [if_pos hx]; exact .fail (by simp)
     · simp only [if_neg hx]
-      refine (pre_deInt hflt hAe hAn hint w (x :: r) (pos + 1) (by simp only [List.length_cons]; omega)).bind (fun v r' p' hp' => ?_) (fun v => ?_)
+      refine (hint w (x :: r) (pos + 1) (by simp only [List.length_cons]; omega)).bind (fun v r' p' hp' => ?_) (fun v => ?_)
       · cases r' with
         | nil =>
           simp only [List.length_nil, Nat.add_zero] at hp'
@@ -1342,7 +1310,6 @@ theorem pre_keyInt (hint : IntPre A b N env) (w : IntTy) (a : Bytes) (pos : Nat)
         rw [atEof_eq hflt]
         exact atEnd_err (hAe _ rfl)
 
-omit hAn in
 theorem preS_keyBool (a : Bytes) (pos : Nat) (ha : a ≠ []) (hN : pos + a.length = N) :
     PreS A b N (keyBool env (a ++ b) pos) (keyBool env a pos) := by
   unfold keyBool
@@ -1368,10 +1335,8 @@ theorem preS_keyBool (a : Bytes) (pos : Nat) (ha : a ≠ []) (hN : pos + a.lengt
       · simp only [if_neg h2]
         exact (preS_parseStr hflt hAe (x :: r) (pos + 1) (by simp only [List.length_cons]; omega)).bindS fun _ _ _ _ => .fail (by simp)
 
-omit hAn in
 theorem preS_deVariantId (names : List Bytes) : PreSF A b N (deVariantId env names) := preS_deStr hflt hAe _
 
-omit hAn in
 theorem preS_keyUnitEnum (names : List Bytes) : PreSF A b N (keyUnitEnum env names) := by
   intro a pos hN
   unfold keyUnitEnum
@@ -1385,12 +1350,11 @@ theorem pre_deKey (hint : IntPre A b N env) (k : KeyKind) (a : Bytes) (pos : Nat
   unfold deKey
   split
   · exact (preS_keyStr hflt hAe _ a pos ha hN).toPre
-  · exact pre_keyInt hflt hAe hAn hint _ a pos ha hN
+  · exact pre_keyInt hflt hAe hint _ a pos ha hN
   · exact (preS_keyBool hflt hAe a pos ha hN).toPre
   · exact (preS_keyStr hflt hAe _ a pos ha hN).toPre
   · exact (preS_keyUnitEnum hflt hAe _ a pos hN).toPre
 
-omit hAn in
 theorem mapLoop_nil (k : KeyKind) (de : Bytes → Nat → TOut) (n : Nat) (first : Bool) (acc : List (TVal × TVal)) :
     mapLoop env k de (n + 1) first acc [] N = .err .EofWhileParsingObject N := by
   simp [mapLoop, hasNextKey_nil hflt hAe, Res.bind]
@@ -1415,7 +1379,7 @@ theorem pre_mapLoop (hint : IntPre A b N env) (k : KeyKind) (de : Bytes → Nat 
         have hm' : more = true := by simpa using hm
         subst hm'
         have hne := hasNextKey_true env first a pos r p hpre
-        refine (pre_deKey hflt hAe hAn hint k r p hne hpr).bind' (fun kv r1 p1 hp1 _ hpre1 => ?_) (fun kv _ => ?_)
+        refine (pre_deKey hflt hAe hint k r p hne hpr).bind' (fun kv r1 p1 hp1 _ hpre1 => ?_) (fun kv _ => ?_)
         · have hl1 := (deKey_le env k r p hne).2 _ _ _ hpre1
           refine (preS_parseObjectColon hflt hAe r1 p1 hp1).bind' fun _ r2 p2 hp2 _ hpre2 => ?_
           have hl2 := (parseObjectColon_le env r1 p1).2 _ _ _ hpre2
@@ -1431,7 +1395,6 @@ theorem pre_mapLoop (hint : IntPre A b N env) (k : KeyKind) (de : Bytes → Nat 
         · simp only [parseObjectColon_nil hflt hAe, Res.bind]
           exact atEnd_err (hAe _ rfl)
 
-omit hAn in
 theorem pre_deMap (t : Nat) (visit visit' : Bytes → Nat → TOut)
     (hv : ∀ a pos, pos + a.length = N → Pre A b N (visit (a ++ b) pos) (visit' a pos)) :
     ∀ a pos, pos + a.length = N → Pre A b N (deMap env t visit (a ++ b) pos) (deMap env t visit' a pos) := by
@@ -1445,7 +1408,7 @@ theorem pre_deMap (t : Nat) (visit visit' : Bytes → Nat → TOut)
 
 /-! ## structs -/
 
-omit hflt hAe hAn in
+omit hflt hAe in
 theorem hasNextKey_false (first : Bool) (rest : Bytes) (pos : Nat) (r : Bytes) (p : Nat)
     (h : hasNextKey env first rest pos = .ok false r p) : r ≠ [] := by
   unfold hasNextKey withPeek at h
@@ -1456,7 +1419,7 @@ theorem hasNextKey_false (first : Bool) (rest : Bytes) (pos : Nat) (r : Bytes) (
     | (cases h; simp)
     | exact absurd h (atEof_ne_ok _ _ _ _ _ _)
 
-omit hflt hAe hAn in
+omit hflt hAe in
 /-- the field loop ends only on the closing brace, which stays unread -/
 theorem structLoop_ok_ne_nil (de : Schema → Bytes → Nat → TOut) (fs : List (Bytes × Schema)) (deny : Bool) :
     ∀ (n : Nat) (first : Bool) (slots : List (Option TVal)) (rest : Bytes) (pos : Nat) (sl : List (Option TVal)) (r : Bytes) (p : Nat),
@@ -1490,7 +1453,6 @@ theorem structLoop_ok_ne_nil (de : Schema → Bytes → Nat → TOut) (fs : List
           obtain ⟨_, r3, p3, _, h4⟩ := bind_ok h3
           exact ih _ _ _ _ _ _ _ h4
 
-omit hAn in
 theorem structLoop_nil (de : Schema → Bytes → Nat → TOut) (fs : List (Bytes × Schema)) (deny : Bool) (n : Nat) (first : Bool)
     (slots : List (Option TVal)) : structLoop env de fs deny (n + 1) first slots [] N = .err .EofWhileParsingObject N := by
   simp [structLoop, hasNextKey_nil hflt hAe, Res.bind]
@@ -1499,12 +1461,12 @@ theorem pre_ignoreValue : PreF A b N (ignoreValue env) := by
   intro a pos hN
   unfold ignoreValue
   rw [hflt]
-  exact (pre_machine hflt hAe hAn (ignEnv env) 0 init a pos hN).map _
+  exact (pre_machine hflt hAe (ignEnv env) 0 init (finA_ignored hAe _ rfl 0) a pos hN).map _
 
 theorem end_ignoreValue : EndF A N (ignoreValue env) := by
   unfold EndF ignoreValue
   rw [hflt]
-  exact (end_machine hflt hAe hAn (ignEnv env) 0 init).map _
+  exact (end_machine hflt hAe (ignEnv env) 0 init (finA_ignored hAe _ rfl 0)).map _
 
 theorem pre_structLoop (de : Schema → Bytes → Nat → TOut) (fs : List (Bytes × Schema))
     (hde : ∀ f ∈ fs, Good (de f.2) ∧ PreF A b N (de f.2)) (deny : Bool) :
@@ -1570,7 +1532,7 @@ theorem pre_structLoop (de : Schema → Bytes → Nat → TOut) (fs : List (Byte
           · simp only [if_neg hdn]
             refine (preS_parseObjectColon hflt hAe r1 p1 hp1).bind' fun _ r2 p2 hp2 _ hpre2 => ?_
             have hl2 := (parseObjectColon_le env r1 p1).2 _ _ _ hpre2
-            refine (pre_ignoreValue hflt hAe hAn r2 p2 hp2).bind' (fun _ r3 p3 hp3 _ hpre3 => ?_) (fun _ hpre3 => ?_)
+            refine (pre_ignoreValue hflt hAe r2 p2 hp2).bind' (fun _ r3 p3 hp3 _ hpre3 => ?_) (fun _ hpre3 => ?_)
             · have hl3 := (ignoreValue_shr env r2 p2).2 _ _ _ hpre3
               exact tail _ r3 p3 (by omega) hp3
             · have hl3 := (ignoreValue_shr env r2 p2).2 _ _ _ hpre3
@@ -1581,7 +1543,7 @@ theorem pre_structVisitMap (de : Schema → Bytes → Nat → TOut) (fs : List (
     (hde : ∀ f ∈ fs, Good (de f.2) ∧ PreF A b N (de f.2)) (deny : Bool) : PreF A b N (structVisitMap env de fs deny) := by
   intro a pos hN
   unfold structVisitMap
-  refine (pre_structLoop hflt hAe hAn de fs hde deny _ _ true _ a pos (by omega) (by omega) hN).bind' (fun sl r p hp _ _ => ?_)
+  refine (pre_structLoop hflt hAe de fs hde deny _ _ true _ a pos (by omega) (by omega) hN).bind' (fun sl r p hp _ _ => ?_)
     (fun sl hpre => ?_)
   · cases FromValue.finishFields fs sl with
     | ok vs => exact .same hp
@@ -1604,10 +1566,9 @@ theorem pre_deStruct (t : Nat) (de : Nat → Schema → Bytes → Nat → TOut) 
     · split
       · exact .fail (by simp)
       · exact pre_closeWith hAe _ (preS_endMap hflt hAe) ⟨_, endMap_nil hflt hAe, rfl⟩
-          (pre_structVisitMap hflt hAe hAn _ fs (fun f hf => hde f hf _) deny r (p + 1) (by omega))
+          (pre_structVisitMap hflt hAe _ fs (fun f hf => hde f hf _) deny r (p + 1) (by omega))
     · exact pre_peekInvalidType
 
-omit hAn in
 theorem end_deStruct (t : Nat) (de : Nat → Schema → Bytes → Nat → TOut) (fs : List (Bytes × Schema)) (deny : Bool) :
     EndF A N (deStruct env t de fs deny) := end_withPeek hflt hAe rfl
 
@@ -1622,11 +1583,10 @@ theorem pre_dePayload (t : Nat) (de : Nat → Schema → Bytes → Nat → TOut)
   · exact (hde _ (by simp [shapeSchemas]) _).2 a pos hN
   · refine pre_deSeq hflt hAe t _ _ (fun a' pos' hN' => ?_) a pos hN
     exact (pre_tupleLoop hflt hAe _ _ (fun s hs => (hde s (by simpa [shapeSchemas] using hs) _).2) true [] a' pos' hN').map _
-  · refine pre_deStruct hflt hAe hAn t de _ (fun f hf d => hde f.2 ?_ d) false a pos hN
+  · refine pre_deStruct hflt hAe t de _ (fun f hf d => hde f.2 ?_ d) false a pos hN
     simp only [shapeSchemas, List.mem_map]
     exact ⟨f, hf, rfl⟩
 
-omit hAn in
 theorem end_dePayload (t : Nat) (de : Nat → Schema → Bytes → Nat → TOut) (sh : VariantShape)
     (hde : ∀ s ∈ shapeSchemas sh, ∀ d, EndF A N (de d s)) : EndF A N (dePayload env t de sh) := by
   unfold EndF dePayload
@@ -1653,7 +1613,7 @@ theorem pre_deEnum (t : Nat) (de : Nat → Schema → Bytes → Nat → TOut) (v
         obtain ⟨nm, sh⟩ := vsh
         simp only
         have hmem := mem_of_getElem? hv
-        refine (pre_dePayload hflt hAe hAn (t + 1) de sh (hde _ hmem) r2 p2 hp2).bind (fun payload r3 p3 hp3 => ?_) (fun payload => ?_)
+        refine (pre_dePayload hflt hAe (t + 1) de sh (hde _ hmem) r2 p2 hp2).bind (fun payload r3 p3 hp3 => ?_) (fun payload => ?_)
         · refine pre_withPeek hflt hAe rfl (fun c r4 q hq => ?_) r3 p3 hp3
           split
           · exact .same (by omega)
@@ -1669,43 +1629,88 @@ theorem pre_deEnum (t : Nat) (de : Nat → Schema → Bytes → Nat → TOut) (v
 
 /-! ## `deTyped` -/
 
-theorem pre_deTyped (hint : IntPre A b N env) : ∀ (f : Nat) (s : Schema), Schema.size s ≤ f → ∀ t,
+omit hflt hAe in
+theorem rangeSite_mem_list : ∀ (ss : List Schema) (s : Schema), s ∈ ss → Schema.rangeSite s = true → Schema.rangeSiteList ss = true
+  | [], _, h, _ => by simp at h
+  | x :: r, s, h, hr => by
+    simp only [Schema.rangeSiteList, Bool.or_eq_true]
+    rcases List.mem_cons.mp h with rfl | h
+    · exact .inl hr
+    · exact .inr (rangeSite_mem_list r s h hr)
+
+omit hflt hAe in
+theorem rangeSite_mem_fields : ∀ (fs : List (Bytes × Schema)) (f : Bytes × Schema), f ∈ fs → Schema.rangeSite f.2 = true →
+    Schema.rangeSiteFields fs = true
+  | [], _, h, _ => by simp at h
+  | (n, x) :: r, f, h, hr => by
+    simp only [Schema.rangeSiteFields, Bool.or_eq_true]
+    rcases List.mem_cons.mp h with rfl | h
+    · exact .inl hr
+    · exact .inr (rangeSite_mem_fields r f h hr)
+
+omit hflt hAe in
+theorem rangeSite_shape (sh : VariantShape) (s : Schema) (h : s ∈ shapeSchemas sh) (hr : Schema.rangeSite s = true) :
+    VariantShape.rangeSite sh = true := by
+  cases sh with
+  | unit => simp [shapeSchemas] at h
+  | newtype s' => simp [shapeSchemas] at h; subst h; simpa [VariantShape.rangeSite] using hr
+  | tuple ss => simp only [shapeSchemas] at h; simpa [VariantShape.rangeSite] using rangeSite_mem_list ss s h hr
+  | struct_ fs =>
+    simp only [shapeSchemas, List.mem_map] at h
+    obtain ⟨f, hf, rfl⟩ := h
+    simpa [VariantShape.rangeSite] using rangeSite_mem_fields fs f hf hr
+
+omit hflt hAe in
+theorem rangeSite_mem_variants : ∀ (vs : List (Bytes × VariantShape)) (v : Bytes × VariantShape), v ∈ vs →
+    VariantShape.rangeSite v.2 = true → Schema.rangeSiteVariants vs = true
+  | [], _, h, _ => by simp at h
+  | (n, x) :: r, v, h, hr => by
+    simp only [Schema.rangeSiteVariants, Bool.or_eq_true]
+    rcases List.mem_cons.mp h with rfl | h
+    · exact .inl hr
+    · exact .inr (rangeSite_mem_variants r v h hr)
+
+/-- the prefix relation for `deTyped`; `NumberOutOfRange` has to be allowed only when the schema has a target that
+    converts number literals to floats while parsing -/
+theorem pre_deTyped (hint : IntPre A b N env) : ∀ (f : Nat) (s : Schema), Schema.size s ≤ f →
+    (Schema.rangeSite s = true → A .NumberOutOfRange) → ∀ t,
     PreF A b N (deTyped env f t s) ∧ EndF A N (deTyped env f t s) := by
   intro f
   induction f with
   | zero => intro s hs; have := size_pos s; omega
   | succ f ih =>
-    intro s hs t
+    intro s hs hAn t
     have hgood := fun s' (h' : Schema.size s' ≤ f) t' => deTyped_good env f s' h' t'
     cases s with
     | bool => rw [deTyped_bool]; exact ⟨fun a pos hN => (preS_deBool hflt hAe a pos hN).toPre, end_withPeek hflt hAe rfl⟩
     | int w =>
       rw [deTyped_int]
-      exact ⟨pre_deInt hflt hAe hAn hint w, by unfold EndF; rw [deInt_nil hflt hAe]; exact atEnd_err (hAe _ rfl)⟩
+      exact ⟨hint w, by unfold EndF; rw [deInt_nil hflt hAe]; exact atEnd_err (hAe _ rfl)⟩
     | f64 =>
       rw [deTyped_f64]
-      exact ⟨pre_deNumber_float hflt hAe hAn _ (by intro w h; cases h), by unfold EndF; rw [deNumber_nil hflt hAe]; exact atEnd_err (hAe _ rfl)⟩
+      exact ⟨pre_deNumber_float hflt hAe (hAn rfl) _ (by intro w h; cases h), by unfold EndF; rw [deNumber_nil hflt hAe]; exact atEnd_err (hAe _ rfl)⟩
     | f32 =>
       rw [deTyped_f32]
-      exact ⟨pre_deNumber_float hflt hAe hAn _ (by intro w h; cases h), by unfold EndF; rw [deNumber_nil hflt hAe]; exact atEnd_err (hAe _ rfl)⟩
+      exact ⟨pre_deNumber_float hflt hAe (hAn rfl) _ (by intro w h; cases h), by unfold EndF; rw [deNumber_nil hflt hAe]; exact atEnd_err (hAe _ rfl)⟩
     | char => rw [deTyped_char]; exact ⟨fun a pos hN => (preS_deStr hflt hAe _ a pos hN).toPre, end_withPeek hflt hAe rfl⟩
     | string => rw [deTyped_string]; exact ⟨fun a pos hN => (preS_deStr hflt hAe _ a pos hN).toPre, end_withPeek hflt hAe rfl⟩
-    | bytes => rw [deTyped_bytes]; exact ⟨pre_deBytes hflt hAe hAn hint t, end_withPeek hflt hAe rfl⟩
+    | bytes => rw [deTyped_bytes]; exact ⟨pre_deBytes hflt hAe hint t, end_withPeek hflt hAe rfl⟩
     | unit => rw [deTyped_unit]; exact ⟨fun a pos hN => (preS_deUnit hflt hAe a pos hN).toPre, end_withPeek hflt hAe rfl⟩
     | unitStruct => rw [deTyped_unitStruct]; exact ⟨fun a pos hN => (preS_deUnit hflt hAe a pos hN).toPre, end_withPeek hflt hAe rfl⟩
     | ignored =>
       rw [deTyped_ignored]
-      exact ⟨fun a pos hN => (pre_ignoreValue hflt hAe hAn a pos hN).map _, (end_ignoreValue hflt hAe hAn).map _⟩
+      exact ⟨fun a pos hN => (pre_ignoreValue hflt hAe a pos hN).map _, (end_ignoreValue hflt hAe).map _⟩
     | any =>
       rw [deTyped_any, hflt]
-      exact ⟨fun a pos hN => (pre_machine hflt hAe hAn _ t _ a pos hN).map _, (end_machine hflt hAe hAn _ t _).map _⟩
+      exact ⟨fun a pos hN => (pre_machine hflt hAe _ t _ (finA_value hAe (hAn rfl) _ t) a pos hN).map _,
+        (end_machine hflt hAe _ t _ (finA_value hAe (hAn rfl) _ t)).map _⟩
     | newtype s' =>
       have hs' : Schema.size s' ≤ f := by simp only [Schema.size] at hs; omega
       rw [deTyped_newtype]
-      exact ih s' hs' t
+      exact ih s' hs' (fun h => hAn (by simpa [Schema.rangeSite] using h)) t
     | option s' =>
       have hs' : Schema.size s' ≤ f := by simp only [Schema.size] at hs; omega
-      have hi := ih s' hs' t
+      have hi := ih s' hs' (fun h => hAn (by simpa [Schema.rangeSite] using h)) t
       rw [deTyped_option]
       refine ⟨?_, ?_⟩
       · intro a pos hN
@@ -1729,7 +1734,7 @@ theorem pre_deTyped (hint : IntPre A b N env) : ∀ (f : Nat) (s : Schema), Sche
         exact hi.2.map _
     | seq s' =>
       have hs' : Schema.size s' ≤ f := by simp only [Schema.size] at hs; omega
-      have hi := ih s' hs' (t + 1)
+      have hi := ih s' hs' (fun h => hAn (by simpa [Schema.rangeSite] using h)) (t + 1)
       rw [deTyped_seq]
       refine ⟨?_, end_withPeek hflt hAe rfl⟩
       refine pre_deSeq hflt hAe t _ _ fun a pos hN => ?_
@@ -1738,24 +1743,25 @@ theorem pre_deTyped (hint : IntPre A b N env) : ∀ (f : Nat) (s : Schema), Sche
       rw [deTyped_tuple]
       refine ⟨?_, end_withPeek hflt hAe rfl⟩
       refine pre_deSeq hflt hAe t _ _ fun a pos hN => ?_
-      refine (pre_tupleLoop hflt hAe _ ss (fun s' hs' => (ih s' ?_ (t + 1)).1) true [] a pos hN).map _
+      refine (pre_tupleLoop hflt hAe _ ss (fun s' hs' => (ih s' ?_
+        (fun h => hAn (by simpa [Schema.rangeSite] using rangeSite_mem_list ss s' hs' h)) (t + 1)).1) true [] a pos hN).map _
       have := size_mem_list ss s' hs'
       simp only [Schema.size] at hs; omega
     | map k s' =>
       have hs' : Schema.size s' ≤ f := by simp only [Schema.size] at hs; omega
-      have hi := ih s' hs' (t + 1)
+      have hi := ih s' hs' (fun h => hAn (by simpa [Schema.rangeSite] using h)) (t + 1)
       rw [deTyped_map]
       refine ⟨?_, end_withPeek hflt hAe rfl⟩
       refine pre_deMap hflt hAe t _ _ fun a pos hN => ?_
-      exact (pre_mapLoop hflt hAe hAn hint k _ (hgood s' hs' (t + 1)) hi.1 _ _ _ _ a pos (by omega) (by omega) hN).map _
+      exact (pre_mapLoop hflt hAe hint k _ (hgood s' hs' (t + 1)) hi.1 _ _ _ _ a pos (by omega) (by omega) hN).map _
     | struct_ fs deny =>
       rw [deTyped_struct]
       refine ⟨?_, end_withPeek hflt hAe rfl⟩
-      refine pre_deStruct hflt hAe hAn t _ fs (fun fl hf d => ?_) deny
+      refine pre_deStruct hflt hAe t _ fs (fun fl hf d => ?_) deny
       have hsz : Schema.size fl.2 ≤ f := by
         have := size_mem_fields fs fl hf
         simp only [Schema.size] at hs; omega
-      exact ⟨hgood _ hsz d, (ih _ hsz d).1⟩
+      exact ⟨hgood _ hsz d, (ih _ hsz (fun h => hAn (by simpa [Schema.rangeSite] using rangeSite_mem_fields fs fl hf h)) d).1⟩
     | enum_ vs =>
       rw [deTyped_enum]
       refine ⟨?_, end_withPeek hflt hAe rfl⟩
@@ -1764,8 +1770,10 @@ theorem pre_deTyped (hint : IntPre A b N env) : ∀ (f : Nat) (s : Schema), Sche
         have h1 := size_mem_variants vs v hv
         have h2 := size_shape v.2 s' hs'
         simp only [Schema.size] at hs; omega
-      exact pre_deEnum hflt hAe hAn t _ vs (fun v hv s' hs' d => ⟨hgood _ (hsz v hv s' hs') d, (ih _ (hsz v hv s' hs') d).1⟩)
-        (fun v hv s' hs' d => (ih _ (hsz v hv s' hs') d).2)
+      have hr : ∀ v ∈ vs, ∀ s' ∈ shapeSchemas v.2, Schema.rangeSite s' = true → A .NumberOutOfRange := fun v hv s' hs' h =>
+        hAn (by simpa [Schema.rangeSite] using rangeSite_mem_variants vs v hv (rangeSite_shape v.2 s' hs' h))
+      exact pre_deEnum hflt hAe t _ vs (fun v hv s' hs' d => ⟨hgood _ (hsz v hv s' hs') d, (ih _ (hsz v hv s' hs') (hr v hv s' hs') d).1⟩)
+        (fun v hv s' hs' d => (ih _ (hsz v hv s' hs') (hr v hv s' hs') d).2)
 
 end
 
